@@ -288,6 +288,9 @@ func runC02(c *mon.Ctx) {
 		c.Case(id, func() {
 			rng := c.Rand(id)
 			n := ns[b%len(ns)]
+			if b == c.Shard && c.Shard%4 == 1 {
+				n = 1025 // beyond any internal batching threshold, not a multiple of small CPU counts
+			}
 			polys := makePolys(env, rng, 1+rng.Intn(4))
 			s := genStatement(env, rng, n, rng.Intn(10), polys)
 			if s.label == "" && rng.Intn(2) == 0 {
@@ -330,6 +333,15 @@ func runC02(c *mon.Ctx) {
 			c.Count("acceptances_expected_and_observed", 1)
 			c.Eval("CheckMultiProof|honest|"+ncl, n >= 2)
 
+			// large statements: the last openings in particular must be bound (their claimed value, zero or not)
+			if n > 500 {
+				for _, i := range []int{n - 1, n - 2, n - 3, n / 2} {
+					t := base.clone()
+					one := fr.One()
+					t.ys[i].Add(t.ys[i], &one)
+					c02expectReject(c, env, t, "CheckMultiProof|y_i:+1-at-tail|"+ncl, "y_i:+1-at-tail", refSeen, false, s)
+				}
+			}
 			// (a) single-component perturbations: expect rejection
 			for _, p := range perts {
 				t := base.clone()
